@@ -11,6 +11,7 @@ delay" and "fires once the delay has passed" are `timerfd` behaviour: checked on
 at the scheduling call vs. callback entry; drain phase), not proven.
 -/
 import Sonic.Lemmas.LoopTimer
+import Sonic.Props.Ledger
 
 namespace Sonic.Props.C04
 open Sonic.Model.Loop
@@ -169,6 +170,43 @@ theorem C04_repeating_continues (w : World) (op k cb : Nat) (o : Obj) (hg : getO
     (hc : o.cancelled = false) (hcr : o.cancels = cb) (hs : o.tstate = .ready) :
     applyAfter w op (.timerDone k true cb) = armTimer w o op true := by
   simp [applyAfter, hg, hk, hc, hcr, hs]
+
+/-! ### At the API level (the ledger of `Sonic.Spec.Ledger`, which every history of the model satisfies) -/
+
+/-- **Never after a successful Cancel / Close, for every history.** Every history of the model is accepted by the API-level
+ledger (`Sonic.Props.Ledger.ledger_accepts_model`), which admits a callback only for an operation it owes; and when a
+timer's `Cancel` (or `Close`) returns successfully the ledger owes no schedule of that timer any more — so a timer callback
+entered later belongs to a schedule made after the Cancel. -/
+theorem C04_cancel_clears_ledger (l l' : Sonic.Spec.Ledger.L) (k : Nat) (rest : List Sonic.Spec.Ledger.LFrame)
+    (hst : l.stack = .tcancel k :: rest) (h : Sonic.Spec.Ledger.step l (.ret (.err true)) = some l') :
+    ∀ r ∈ l'.owed, Sonic.Spec.Ledger.timerOn k r = false := by
+  simp only [Sonic.Spec.Ledger.step, hst] at h
+  have h' := Option.some.inj h
+  rw [← h']
+  intro r hr
+  simp only [beq_self_eq_true, if_true, List.mem_filter, Bool.not_eq_true'] at hr
+  exact hr.2
+
+theorem C04_close_clears_ledger (l l' : Sonic.Spec.Ledger.L) (k : Nat) (rest : List Sonic.Spec.Ledger.LFrame)
+    (hst : l.stack = .close k :: rest) (h : Sonic.Spec.Ledger.step l (.ret (.err true)) = some l') :
+    ∀ r ∈ l'.owed, Sonic.Spec.Ledger.timerOn k r = false := by
+  simp only [Sonic.Spec.Ledger.step, hst] at h
+  have h' := Option.some.inj h
+  rw [← h']
+  intro r hr
+  simp only [beq_self_eq_true, if_true, List.mem_filter, Bool.not_eq_true', Bool.and_eq_false_imp] at hr
+  unfold Sonic.Spec.Ledger.timerOn
+  cases hk : (r.obj == k) with
+  | false => rfl
+  | true =>
+    have := hr.2 hk
+    simp only [bne_eq_false_iff_eq] at this
+    rw [this]; rfl
+
+/-- The model's histories are accepted by that ledger (documented usage). -/
+theorem C04_ledger_accepts_model (evs : List Ev) (w : World) (h : run {} evs = some w) (hU : Sonic.Spec.Ledger.UsageOk {} evs) :
+    Sonic.Spec.Ledger.accepts evs = true :=
+  Sonic.Props.Ledger.ledger_accepts_model evs w h hU
 
 /-! Non-vacuity: schedule, fire, re-schedule while scheduled fails, cancel, close, cancel-after-close, schedule fails. -/
 example : ∃ w, run {} [.obj 1 .timer, .callSched 11 1 false 2, .ret (.err true), .callSched 12 1 false 2, .ret (.err false),
